@@ -121,6 +121,13 @@ func main() {
 		if err := format.Node(&buf, fset, f); err != nil {
 			fatal(err)
 		}
+		// keep imports used after calls have been replaced
+		if bytes.Contains(buf.Bytes(), []byte("vsGo(")) && bytes.Contains(buf.Bytes(), []byte("/gopool\"")) {
+			buf.WriteString("\nvar _ = gopool.Go\n")
+		}
+		if !bytes.Contains(buf.Bytes(), []byte("atomic.")) && bytes.Contains(buf.Bytes(), []byte("\"sync/atomic\"")) {
+			buf.WriteString("\nvar _ atomic.Value\n")
+		}
 		outPath := filepath.Join(*out, "instr_"+name)
 		if err := os.WriteFile(outPath, buf.Bytes(), 0o644); err != nil {
 			fatal(err)
